@@ -54,6 +54,9 @@ MC = [
     ("MC_KeyKeeper", "KeyKeeper_failopen.cfg", ("LatchedIsRecoverable", "AttestOnlyAfterStoreAndReadBack"), None),
     # a design that accepts the local key file only when its incarnation number equals the one of the status document
     ("MC_KeyKeeper", "KeyKeeper_incmatch.cfg", "RestartUsesLocal", None),
+    # a look-up that rewrites the host's guid spelling; start-up housekeeping that removes "older" key files
+    ("MC_KeyKeeper", "KeyKeeper_spelling.cfg", "RestartUsesLocal", None),
+    ("MC_KeyKeeper", "KeyKeeper_prune.cfg", ("LatchedIsRecoverable", "RestartUsesLocal"), None),
 ]
 
 JOBS_QUICK = [
@@ -67,9 +70,16 @@ JOBS_QUICK = [
     ("fresh", "readback-fails-3x"),
     # the host states the key's incarnation number in the key document only / differently in the two documents
     ("fresh-inc-key-only", "none"), ("restart-with-key-inc-key-only", "none"), ("fresh-inc-differ", "attest-lost"),
+    # the host spells its guids in upper case / without hyphens
+    ("fresh-guid-upper", "none"), ("fresh-guid-nohyphen", "attest-lost"),
+    # refused keys' files with later modification times than the latched key's file lie in the key directory at a restart
+    ("restart-with-key-newer-leftovers", "none"),
 ]
-THIN = {"fresh-inc-key-only": 3, "restart-with-key-inc-key-only": 2, "fresh-inc-differ": 3}     # quick: every n-th kill point
-JOBS_MORE = [("fresh-inc-status-only", "none"), ("fresh-inc-equal", "none"), ("restart-with-key-inc-differ", "none"),
+THIN = {"fresh-inc-key-only": 3, "restart-with-key-inc-key-only": 2, "fresh-inc-differ": 3, "fresh-guid-upper": 3,
+        "fresh-guid-nohyphen": 3, "restart-with-key-newer-leftovers": 2}     # quick: every n-th kill point
+JOBS_MORE = [("restart-with-key-guid-upper", "none"), ("restart-with-key-older-leftovers", "none"),
+             ("restart-with-key-newer-leftovers", "status-fail"), ("fresh-guid-upper", "readback-fails"),
+             ("fresh-inc-status-only", "none"), ("fresh-inc-equal", "none"), ("restart-with-key-inc-differ", "none"),
              ("fresh-inc-key-only", "readback-fails"),
              ("fresh", "store-create-fails"), ("fresh", "store-write-fails"), ("fresh", "store-rename-fails-twice"),
              ("fresh", "store-rename-fails+attest-lost"), ("rotation", "readback-fails"), ("unreadable-local-key", "store-rename-fails"),
